@@ -41,7 +41,7 @@ LEVEL_NOTE = ('Trusted: NumPy (long double), Hypothesis, vlib/ref/partition.py '
               'with cell sides >= 0.05 so that the isclose-based boundary-node '
               'detection of the library is unambiguous.')
 DESIGN_REF = 'DESIGN.md section 5, C14'
-BUDGET = {'quick': 4000, 'thorough': 40000}
+BUDGET = {'quick': 6000, 'thorough': 60000}
 TOLERANCES = {
     'limits_given': 'exactly the given numbers (bitwise)',
     'limits_completed': '|got-ref| <= 8*eps*scale (exact on the dyadic '
